@@ -732,7 +732,10 @@ class TFLiteSupportedOperators:
                 valid = True
             else:
                 # Valid if OFM is 2/4/8x IFM (-1 for align corners)
-                if align_corners:
+                if align_corners and 1 in (ifm_shape_h, ifm_shape_w):
+                    # the scale factor of a dimension of size one is undefined (not supported)
+                    h_upscale_factor = w_upscale_factor = 0
+                elif align_corners:
                     h_upscale_factor = (ofm_shape_h - 1) / (ifm_shape_h - 1)
                     w_upscale_factor = (ofm_shape_w - 1) / (ifm_shape_w - 1)
                 else:
